@@ -83,7 +83,7 @@ def merge( ranges, reach=1, limit=None ):
                  and address < base + length + ( reach or 1 )):
                 log.debug( "Merging:  %10r + %10r == %r" % (
                         (base,length), (address,count), (base,address+count-base)))
-                length	= address + count - base
+                length	= max( length, address + count - base )
                 continue
             log.debug( "Unmerged: %10r + %10r w/reach %r" % (
                     (base,length), (address,count), reach))
